@@ -409,7 +409,9 @@ func gens() []genDef {
 	}
 	for _, c := range compositeSets {
 		c := c
-		out = append(out, genDef{"COMPOSITE_" + c.name, func() (key.Parameters, error) { return compositemldsa.NewParameters(c.alg, c.inst, compositemldsa.VariantTink) }, false})
+		out = append(out, genDef{"COMPOSITE_" + c.name, func() (key.Parameters, error) {
+			return compositemldsa.NewParameters(c.alg, c.inst, compositemldsa.VariantTink)
+		}, false})
 	}
 	for _, ht := range []slhdsa.HashType{slhdsa.SHA2, slhdsa.SHAKE} {
 		for _, ks := range []int{64, 96, 128} {
@@ -651,8 +653,8 @@ func (g *generated) materialTargets() []int {
 
 func rsaPrimeFromDraw(b []byte) []byte {
 	c := bytes.Clone(b)
-	c[0] |= 0xC0      // FIPS 186-5 A.1.3 / stdlib: the two top bits are set ...
-	c[len(c)-1] |= 1  // ... and the candidate is made odd
+	c[0] |= 0xC0     // FIPS 186-5 A.1.3 / stdlib: the two top bits are set ...
+	c[len(c)-1] |= 1 // ... and the candidate is made odd
 	return c
 }
 
